@@ -22,6 +22,7 @@ type readerSpec struct {
 	rel, name string
 	opaque    []string
 	fn        *ssa.Function
+	onlyK7    bool // emit only the canvas-size obligation (C16)
 }
 
 // loopFuncs: functions of the package (in the given files) that contain a loop.
@@ -102,6 +103,46 @@ func checkReader(c *Ctx, p *Program, spec readerSpec, maxRuns int) {
 			m[k] = &verdict{}
 		}
 		return m[k]
+	}
+	// K7 (C16): in a class where an ANMF chunk is walked, the parser's overall Width/Height (which
+	// GetFeatures and DecodeConfig report, and which are the canvas for an animation) are not assigned
+	canvasBad := ""
+	const anmf = 1179471425 // 'ANMF' little-endian
+	for i := range out.runs {
+		r := &out.runs[i]
+		isANMF := false
+		for k, v := range r.assume {
+			if v && strings.HasPrefix(k, fmt.Sprintf("ge:%d:u32(", anmf)) {
+				if nv, ok := r.assume[strings.Replace(k, fmt.Sprintf("ge:%d:", anmf), fmt.Sprintf("ge:%d:", anmf+1), 1)]; ok && !nv {
+					isANMF = true
+				}
+			}
+		}
+		if !isANMF || r.err {
+			continue
+		}
+		for _, w := range r.written {
+			if (strings.HasSuffix(w, ".features.Width") || strings.HasSuffix(w, ".features.Height")) && canvasBad == "" {
+				canvasBad = w + " [input class: " + describeAssume(r.assume, r.order) + "]"
+			}
+		}
+	}
+	if spec.rel == "internal/container" && len(out.runs) > 0 {
+		sawANMF := false
+		for i := range out.runs {
+			for k := range out.runs[i].assume {
+				if strings.HasPrefix(k, fmt.Sprintf("ge:%d:u32(", anmf)) {
+					sawANMF = true
+				}
+			}
+		}
+		if sawANMF && spec.onlyK7 {
+			c.Check(canvasBad == "", "K7-canvas-size", key, pos, "walking an ANMF chunk does not assign the file's overall width/height",
+				"while walking an ANMF frame "+spec.name+" assigns "+canvasBad+": for an animation GetFeatures/DecodeConfig then report a frame's size where the demuxer and the animation reader report the canvas")
+		}
+	}
+	if spec.onlyK7 {
+		return
 	}
 	early := map[string]string{}
 	for i := range out.runs {
